@@ -218,10 +218,10 @@ def coq_eval(tag, preamble, bodies, timeout=600, shard=250):
             fh.write(";\n".join("  (%s)" % b for b in chunk))
             fh.write("\n].\n")
             fh.write(
-                "Definition failing : list nat := map fst (filter (fun p => negb (snd p)) "
-                "(combine (seq 0 (length results)) results)).\n"
+                "Definition failing : list nat := List.map fst (List.filter (fun p => negb (snd p)) "
+                "(List.combine (List.seq 0 (List.length results)) results)).\n"
             )
-            fh.write("Eval vm_compute in (length results, failing).\n")
+            fh.write("Eval vm_compute in (List.length results, failing).\n")
         files.append((k, len(chunk), name))
     failed, errors = [], []
     with ThreadPoolExecutor(max_workers=12) as ex:
